@@ -4,6 +4,8 @@ import (
 	"fmt"
 
 	"github.com/sirupsen/logrus"
+
+	"github.com/ory/keto/ketoapi"
 )
 
 // C02 – depth and width limits fail closed and can only be lowered per
@@ -56,6 +58,18 @@ func runC02(env *Env, rc *RunCtx) {
 		}
 		return d
 	}
+	// the request goes through the single-check or the batch entry point
+	batch := t.Bool(1, 4)
+	apiQ := c.Query.API()
+	mkReq := func(depth int) []*Request {
+		if batch {
+			return []*Request{{Kind: "batch", Batch: []*ketoapi.RelationTuple{apiQ}, Depth: depth}}
+		}
+		return []*Request{{Kind: "check", Tuple: q, Depth: depth}}
+	}
+	if batch {
+		rc.Count("probe_batch_entry_point", 1)
+	}
 	nExec := execsFor(rc.Tier, 3, 8)
 	type runA struct {
 		out   CheckOut
@@ -71,7 +85,7 @@ func runC02(env *Env, rc *RunCtx) {
 		}
 		et := rc.ExecTape(e)
 		d1, w1 := env.Log.DepthCut.Load(), env.Log.WidthCut.Load()
-		res := env.Exec(et, []*Request{{Kind: "check", Tuple: q, Depth: r}}, NoFaults())
+		res := env.Exec(et, mkReq(r), NoFaults())
 		cutInExec := env.Log.DepthCut.Load() > d1 || env.Log.WidthCut.Load() > w1
 		rc.Rec.Execs++
 		rc.AddSchedule(res.TraceHash)
@@ -113,42 +127,67 @@ func runC02(env *Env, rc *RunCtx) {
 		rc.Count("probe_width_cut", 1)
 	}
 	rc.Rec.NonTrivial = dc > 0 || wc > 0
-	// Oracle 2: same requests against a server whose global limit is eff, request depth 0
-	env.SetLimitsCached(Limits{Depth: eff, Width: w})
+	// Oracle 2: same requests against a server whose global limit is eff, request depth 0.
+	// Go's select between several ready channels is not seedable, so two
+	// executions of one tape can (rarely) differ without any defect. A
+	// difference is therefore reported only when it is CONSISTENT: three
+	// executions of (r,g) agree with each other, three executions of (0,eff)
+	// agree with each other, and the two groups differ.
+	type obs struct {
+		out   CheckOut
+		trace string
+	}
+	runOnce := func(depth int, tape []uint32, seed uint64) (obs, bool) {
+		res := env.Exec(ReplayThen(tape, seed), mkReq(depth), NoFaults())
+		rc.Rec.Execs++
+		if !res.Returned || len(res.Outs) != 1 {
+			return obs{}, false
+		}
+		return obs{out: res.Outs[0], trace: fmt.Sprint(res.Trace)}, true
+	}
+	same := func(a, b obs) bool {
+		return a.out.Membership == b.out.Membership && (a.out.Err == "") == (b.out.Err == "") && a.trace == b.trace
+	}
 	for e := 0; e < nExec; e++ {
 		if rc.SkipExec(e) || !as[e].ok {
 			continue
 		}
-		et := ReplayThen(as[e].tape, Mix(rc.execSeed, 99, uint64(e)))
-		res := env.Exec(et, []*Request{{Kind: "check", Tuple: q, Depth: 0}}, NoFaults())
-		rc.Rec.Execs++
-		if !res.Returned || len(res.Outs) != 1 {
+		seed := Mix(rc.execSeed, 99, uint64(e))
+		env.SetLimitsCached(Limits{Depth: eff, Width: w})
+		b1, ok := runOnce(0, as[e].tape, seed)
+		if !ok {
 			rc.Count("no_result", 1)
 			continue
 		}
-		o := res.Outs[0]
-		rc.Note(fmt.Sprintf("B e=%d out=%v trace=%016x", e, o, res.TraceHash))
-		same := o.Membership == as[e].out.Membership && (o.Err == "") == (as[e].out.Err == "")
-		tr := len(res.Trace) == len(as[e].trace)
-		if tr {
-			for i := range res.Trace {
-				if res.Trace[i] != as[e].trace[i] {
-					tr = false
-					break
-				}
-			}
+		a1 := obs{out: as[e].out, trace: fmt.Sprint(as[e].trace)}
+		rc.Note(fmt.Sprintf("B e=%d out=%v", e, b1.out))
+		if same(a1, b1) {
+			rc.Count("pairs_equal", 1)
+			continue
 		}
-		if !same || !tr {
-			what := "decision"
-			if same {
-				what = "storage-trace"
-			}
-			rc.Violate("request-depth", what,
-				fmt.Sprintf("(request %d, global %d) gave %v; (request 0, global %d) gave %v", r, g, as[e].out, eff, o),
-				desc(map[string]any{"schedule_request_depth": as[e].trace, "schedule_global_eff": res.Trace}), e, &Tape{Rec: as[e].tape})
-			return
+		// confirm
+		consistent := true
+		for i := 0; i < 2 && consistent; i++ {
+			bi, ok := runOnce(0, as[e].tape, seed)
+			consistent = ok && same(bi, b1)
 		}
-		rc.Count("pairs_equal", 1)
+		env.SetLimitsCached(Limits{Depth: g, Width: w})
+		for i := 0; i < 2 && consistent; i++ {
+			ai, ok := runOnce(r, as[e].tape, seed)
+			consistent = ok && same(ai, a1)
+		}
+		if !consistent {
+			rc.Count("inconclusive_unseedable_select", 1)
+			continue
+		}
+		what := "decision"
+		if a1.out.Membership == b1.out.Membership && (a1.out.Err == "") == (b1.out.Err == "") {
+			what = "storage-trace"
+		}
+		rc.Violate("request-depth", what,
+			fmt.Sprintf("(request %d, global %d) gave %v; (request 0, global %d) gave %v (consistently, 3 executions each)", r, g, a1.out, eff, b1.out),
+			desc(map[string]any{"schedule_request_depth": a1.trace, "schedule_global_eff": b1.trace, "entry_point": mkReq(0)[0].Kind}), e, &Tape{Rec: as[e].tape})
+		return
 	}
 	if r <= 0 {
 		rc.Count("probe_request_depth_nonpositive", 1)
